@@ -38,7 +38,7 @@ theorem scanRows_info (ord : Nat) : ∀ (fxs : List Fx) (row : Nat) (st : ScanSt
         constructor
         · intro st' o2 h; rw [hf] at h; cases h; exact hinfo
         · intro st' r' h; rw [hf] at h; cases h
-      | none | speed _ | tempo _ | delay _ =>
+      | none | speed _ | tempo _ | delay _ | rowdelay _ =>
         simp only at hf
         obtain ⟨i1, i2⟩ := ih (row + 1) (visitStep ord row _ (clampBpm st))
         constructor
